@@ -797,11 +797,9 @@ fn id_atoms() -> Vec<Expr> {
 fn mini_core() -> Vec<Expr> {
     vec![
         gt(col("a"), int(0)),
-        ne(col("b"), float(0.5)),
         le(col("c"), text("ab")),
         lt(col("a"), col("b")),
         is_null(col("a")),
-        is_not_null(col("c")),
         in_list(col("a"), vec![int(0), int(2)]),
         between(col("b"), float(0.5), float(1.0)),
         like(col("c"), text("a%")),
